@@ -351,11 +351,21 @@ fn gen_text(rng: &mut Rng, terms: &[TermGen], comments: &[String], allow_max: bo
     s
 }
 
+/// Finding F22 (scnr2: an empty FIRST alternative is dropped): one dedicated grammar.
+const EMPTY_ALT_PAR: &str = "%start S\n%%\nS: { A | B };\nA: /x(|a)y/;\nB: /[a-z]+/;\n";
+
 pub fn generate(seed: u64, thorough: bool) -> Vec<String> {
     let mut rng = Rng::new(seed ^ 0xC13);
     let mut out = vec![];
-    let ngram = if thorough { 900 } else { 150 };
-    let ntext = if thorough { 30 } else { 14 };
+    if let Ok(d) = describe(EMPTY_ALT_PAR) {
+        if let Ok(word) = &d.word {
+            for t in ["xy", "xay", "xy xay q"] {
+                out.push(format!("scan 1 0 {} {} {}", cps(EMPTY_ALT_PAR), word, cps(t)));
+            }
+        }
+    }
+    let ngram = if thorough { 2500 } else { 150 };
+    let ntext = if thorough { 40 } else { 14 };
     for gi in 0..ngram {
         let (par, terms, comments) = gen_par(&mut rng);
         let Ok(d) = describe(&par) else {
@@ -398,6 +408,19 @@ pub fn generate(seed: u64, thorough: bool) -> Vec<String> {
     out
 }
 
+/// `pv c13 mkcase <k> <peek> <par-file> <text>` prints the request line for a hand-written grammar
+/// (for corpus files and experiments).
 pub fn cli(args: &[String]) {
+    if args.first().map(|s| s.as_str()) == Some("mkcase") && args.len() == 5 {
+        let par = std::fs::read_to_string(&args[3]).expect("grammar file");
+        match describe(&par) {
+            Ok(d) => match &d.word {
+                Ok(w) => println!("scan {} {} {} {} {}", args[1], args[2], cps(&par), w, cps(&args[4])),
+                Err(e) => println!("skipped:unsupported-regex:{e}"),
+            },
+            Err(e) => println!("{e}"),
+        }
+        return;
+    }
     standard_cli(args, generate, run_case)
 }
